@@ -237,8 +237,14 @@ func TestVerif_C14_readers(t *testing.T) {
 		}
 	}
 	for i, st := range streams {
-		open, out, term := verifc14.Ref(st.alg, st.wire, st.fin)
 		sizes := verifc14.Sizes(r)
+		chunk := 0
+		if r.Intn(2) == 0 {
+			chunk = 1 + r.Intn(40)
+		}
+		// the reference: the library used directly under the SAME schedule (input chunking and
+		// Read sizes) - on corrupted streams a decoder's verdict may depend on it
+		open, out, term := verifc14.RefSched(st.alg, st.wire, st.fin, chunk, sizes)
 		var extra []int
 		for k := r.Intn(4); k > 0; k-- {
 			extra = append(extra, 1+r.Intn(64))
@@ -253,10 +259,7 @@ func TestVerif_C14_readers(t *testing.T) {
 				extra = []int{1 + r.Intn(9)}
 			}
 		}
-		src := &verifc14.Src{Data: append([]byte(nil), st.wire...), Fin: st.fin}
-		if r.Intn(2) == 0 {
-			src.Chunk = 1 + r.Intn(40)
-		}
+		src := &verifc14.Src{Data: append([]byte(nil), st.wire...), Fin: st.fin, Chunk: chunk}
 		var got string
 		var raw []byte
 		id := fmt.Sprintf("%s/%s#%d", st.alg, st.kind, i)
@@ -266,7 +269,19 @@ func TestVerif_C14_readers(t *testing.T) {
 			got, raw = c14RunScript(rd, out, closeAfter, sizes, extra)
 			rd.Close()
 		}); bad {
-			s.Crash(id, human, p, "")
+			class := ""
+			if open == "panic" && st.alg == "br" {
+				// the brotli library itself panics on this stream under this schedule (used directly,
+				// no imroc/req code): third-party defect, reachable through BrotliReader
+				class = "br-library-panic"
+				human += " wire=" + verifh.Hex(string(st.wire)) + fmt.Sprintf(" chunk=%d", chunk)
+			}
+			s.Crash(id, human, p, class)
+			count("panic")
+			continue
+		}
+		if open == "panic" {
+			s.Observe(id, false, "", true, human+" :: the reference library panicked but the reader under test did not", got)
 			continue
 		}
 		// property oracle (independent of the model): parse `got`
@@ -279,10 +294,9 @@ func TestVerif_C14_readers(t *testing.T) {
 				ok = gotData == verifh.Hex(string(st.payload)) && gotTerm == "eof"
 			case "trunc":
 				// a strict, non-empty prefix of a single-member stream: never a clean end
-				ok = strings.HasPrefix(gotTerm, "err")
-				if !bytes.HasPrefix(st.payload, raw) {
-					ok = false // garbage before the error
-				}
+				// admissible: a read error after a prefix of the payload, or exactly the payload
+				ok = strings.HasPrefix(gotTerm, "err") && bytes.HasPrefix(st.payload, raw) ||
+					gotTerm == "eof" && bytes.Equal(raw, st.payload)
 			case "srcerr":
 				ok = strings.HasPrefix(gotTerm, "err")
 			case "zlib":
